@@ -27,6 +27,7 @@ EXPLANATION = (
     "the limits at every instant follows from them plus the single-threaded event loop, which is assumed. "
     'Also: the sum of units in use reads only claims and states and has exactly the two conjuncts name/RUNNING (detached running steps still count); every path of after_recycle stores the declared resources; R-C12-5 the open-hold counter is written only by hold()/release() and cleared only by the state-change trigger.'
     ' R-C12-7 set_resources deletes all claims of the step and inserts the declared ones without deferring to existing rows; R-C12-8 the subtree flagging on detach/reattach that the hold clause relies on.'
+    ' R-C12-10 also follows the lookups of former outputs to queries without an attachment filter and the raw request through out_paths to _paths; R-C12-11 a step sheds the declarations of its previous run before it counts as running (R-C11-6).'
 )
 ASSUMPTIONS = ["single-threaded asyncio event loop", "a step's command is only started by executor.launch_command"]
 
@@ -276,6 +277,12 @@ def rule_redeclared_running_step(ctx):
         ctx.check(bool(looks) and not blind, fq_, "the former outputs are looked up including detached nodes", f"lookup through {blind or 'nothing'}: the re-creation has detached the outputs the old command wrote, they are skipped, get no hash and stay on disk after the cleanup", "Trellis.find (no attachment filter)")
     ok_dyn = re.search(r"run\.step\.out_paths\(raw=True\)", rsrc) is not None
     ctx.check(ok_dyn, rs.fq, "the former outputs the re-created step is still linked to (amended ones included) are hashed as well", "only the outputs declared at launch are recorded: a file the replaced command declared with amend(out=...) stays on disk for ever", "out_paths(raw=True)")
+    # ... and the request reaches the query: out_paths hands `raw` on, and _paths leaves out its attachment filter for it
+    op_, pf_ = ctx.prog.func("step.Step.out_paths"), ctx.prog.func("step.Step._paths")
+    fwd = any(callee_name(c) == "_paths" and any(k.arg == "raw" and isinstance(k.value, ast.Name) and k.value.id == "raw" for k in c.keywords) for c in calls_in(op_.node)) and any(a.arg == "raw" for a in op_.node.args.args + op_.node.args.kwonlyargs)
+    ctx.check(fwd, op_.fq, "out_paths hands its `raw` argument on to _paths", "out_paths accepts raw= and ignores it: the former outputs of a re-created (attached) step are detached and are filtered out again, so what the replaced command had amended is never hashed and stays on disk", "raw=raw")
+    lifts = any(isinstance(n, ast.If) and any(isinstance(x, ast.Name) and x.id == "raw" for x in ast.walk(n.test)) and any(isinstance(x, ast.Constant) and isinstance(x.value, str) and "NOT detached" in x.value for b in n.body for x in ast.walk(b)) for n in ast.walk(pf_.node))
+    ctx.check(lifts, pf_.fq, "the attachment filter of _paths is left out for raw requests", "_paths adds NOT detached whatever `raw` says", "guarded by raw")
     ok_out = rec_ok and "_record_written_outputs" in seq and "compute_out_hashes" in rsrc and re.search(r"run\.launched_decl\[2\]", rsrc) is not None and seq.index("_record_written_outputs") < seq.index("set_state")
     ctx.check(ok_out, rs.fq, "the outputs the command was launched with are hashed and recorded before the restart", "the early return skips the output hashes: a file written by the replaced command under a path the new declaration no longer has keeps state PLANNED without hash, is forgotten at cleanup and stays on disk", "compute_out_hashes(launched outputs) -> update_file_hashes(cause=FAILED)")
     starts = [c for c in calls_in(ej.node) if isinstance(c.func, ast.Attribute) and c.func.attr == "discard" and ast.unparse(c.func.value).endswith("declared_again")]
@@ -374,7 +381,7 @@ def rule_pool_initialised(ctx):
 
 RULES = [
     Rule("R-C12-11", "a step sheds what its previous run declared before it counts as running (a leftover declared inside a hold that was never released is otherwise dispatched: its creator is RUNNING with _holding = 0)", C11.rule_running_sheds_products, min_instances=5),
-    Rule("R-C12-10", "a step declared again while running keeps its row and is run again afterwards", rule_redeclared_running_step, min_instances=22),
+    Rule("R-C12-10", "a step declared again while running keeps its row and is run again afterwards", rule_redeclared_running_step, min_instances=24),
     Rule("R-C12-9", "the resource pool is initialised from the command line", rule_pool_initialised, min_instances=1),
     Rule("R-C12-8", "steps (re)attached inside a hold block are re-examined (hold clause relies on the _safe recomputation)", C10.rule_step_overrides, min_instances=8),
     Rule("R-C12-7", "resource claims are replaced on declaration", rule_claims_replaced, min_instances=7),
@@ -399,6 +406,8 @@ MUTANTS = [
     Mutant("dropped-run-outputs-recorded-as-succeeded", "executor.py", in_function("Executor._record_written_outputs", replace_once("cause=HashUpdateCause.FAILED", "cause=HashUpdateCause.SUCCEEDED")), ("R-C12-10",)),
     Mutant("dropped-run-outputs-looked-up-attached-only", "executor.py", in_function("Executor._record_written_outputs", replace_once("self.workflow.find(File, path)", "self.workflow.find_attached(File, path)")), ("R-C12-10",)),
     Mutant("replaced-command-outputs-looked-up-attached-only", "executor.py", in_function("Executor._restart_if_declared_again", replace_once("self.workflow.find(File, path)", "self.workflow.find_attached(File, path)")), ("R-C12-10",)),
+    Mutant("raw-outputs-request-not-forwarded", "step.py", in_function("Step.out_paths", lambda t: __import__("re").sub(r"\braw=raw,\s*", "", t, count=1) if "raw=raw" in t else None), ("R-C12-10",)),
+    Mutant("raw-request-still-filtered", "step.py", in_function("Step._paths", replace_once("if not (raw or self.is_detached()):", "if not self.is_detached():")), ("R-C12-10",)),
     Mutant("declared-again-never-cleared", "executor.py", in_function("Executor._restart_if_declared_again", replace_once("            self.workflow.declared_again.discard(run.step.i)\n", "")), ("R-C12-10",)),
     Mutant("redeclared-running-row-reset", "step.py", in_function("Step.initialize_row", replace_once('"state": old_row[0] if still_running else StepState.PENDING.value,', '"state": StepState.PENDING.value,')), ("R-C12-10",)),
     Mutant("redeclared-running-loses-holds", "step.py", in_function("Step.initialize_row", replace_once('"holding": old_row[1] if still_running else 0,', '"holding": 0,')), ("R-C12-10",)),
